@@ -640,6 +640,14 @@ def mon_C11(ops, results):
                     due_elsewhere = [c for (c, k), d in last.items() if k == key[1] and c != key[0] and not absent(d) and 0 < int(d.get("row.exp", "0")) <= now]
                     if due_elsewhere:
                         out.append(viol("C11.expiry-in-one-collection-leaves-others", i, "%s/%s is not due but was changed by the sweep while %s/%s expired" % (key[0], key[1], due_elsewhere[0], key[1])))
+        if name in ("feed", "stopfeed") and len(pos) >= 1 and not res.startswith("r=panic"):
+            # starting / stopping a feed (which may read or write its checkpoint document) concerns the collection the feed follows, no other
+            fcoll = pos[1] if name == "feed" and len(pos) >= 2 else (feeds.get(pos[0]) or {}).get("coll")
+            rbs, _ = following(ops, results, i)
+            for (c, k), after in rbs.items():
+                before = last.get((c, k), {"row": "row=0"}) if fcoll else None
+                if fcoll and c != fcoll and before is not None and row_of(before) != row_of(after):
+                    out.append(viol("C11.other-collections-untouched", i, "%s of a feed on %s changed %s/%s: %s -> %s" % (name, fcoll, c, k, row_of(before), row_of(after))))
         if name not in MUTATORS or len(pos) < 2 or res.startswith("r=panic"):
             continue
         rbs, drains = following(ops, results, i)
